@@ -7,6 +7,8 @@ invariant, T1 anchor lines.
 """
 from __future__ import annotations
 
+import copy
+
 import itertools
 
 from rt import gen, hooks
@@ -243,6 +245,15 @@ def run(spec, ctx):
                         ctx.cell("configurations", name)
                     else:
                         check_case(ctx, ast, doc, text, "random")
+                if r.random() < 0.06:
+                    # ONE compiled query evaluated over several documents at once (lazy iterators advanced in turn, async
+                    # tasks, threads): every evaluation must list exactly its own document's nodelist
+                    from rt.jp_oracle import check_interleaved
+
+                    others = [gen.gen_doc(r, profile=spec["profile"], hostile=0.3, max_depth=3, fan=r.randint(2, 4)) for _ in range(2)]
+                    same_kind = [d_ for d_ in others if type(d_) is type(doc)]
+                    check_interleaved(ctx, ast, Renderer(r, blanks=0.0).top(ast), [(doc, None)] + [(d_, None) for d_ in same_kind] + [(copy.deepcopy(doc), None)], "interleaved")
+                    ctx.count("queries_evaluated_over_several_documents_at_once")
     for k, v in hooks.STATE.sel_matrix.items():
         ctx.cell("H1_selector_x_kind", "|".join(k), v)
     ctx.count("H2_matches_checked", hooks.STATE.h2_checked)
@@ -272,5 +283,11 @@ def replay(case, ctx):
     install()
     if case.get("class") == "recursion-limit":
         run({"kind": "recursion-limit", "limit": case.get("limit")}, ctx)
+        return
+    if case.get("interleaved"):
+        from rt.jp_oracle import check_interleaved
+
+        for _ in range(6):
+            check_interleaved(ctx, case["ast"], case["text"], [tuple(x) for x in case["runs"]], case.get("class", "replay"))
         return
     check_case(ctx, case["ast"], case["doc"], case["text"], case.get("class", "replay"))
